@@ -588,8 +588,22 @@ func (w *Worker) renderNondet(model []uint64) []NondetRec {
 	return out
 }
 
+// freshVar creates the next symbolic variable of the path.  The variable's
+// identity is (ordinal on the path, width): different paths may create
+// variables of different sorts at the same ordinal.
 func (w *Worker) freshVar(width uint8) *Term {
-	t := w.ts.Var(w.p.nvars, width)
+	class := 0
+	switch width {
+	case 0:
+		class = 0
+	case 8:
+		class = 1
+	case 32:
+		class = 2
+	default:
+		class = 3
+	}
+	t := w.ts.Var(w.p.nvars*4+class, width)
 	w.p.nvars++
 	return t
 }
